@@ -9,6 +9,7 @@ a child process whose working directory is the tree under test.  Exit status 1 i
 ones exit 0 and are reported again if they ever return); any other non-zero status means the script itself broke - reported as a
 failing input too, with its own signature, because the input is then no longer shown to be handled.
 """
+import os
 import pathlib
 import subprocess
 import sys
@@ -29,8 +30,13 @@ def replay(run, pid):
         if run.only is not None and idx not in run.only:
             continue
         case = dict(i=idx, op='found input', script=path.name)
+        # (the scripts make their rasters with `tempfile`: give each a directory inside the run's own, removed with it)
+        tdir = run.tmpdir() / f'found_{k}'
+        tdir.mkdir(exist_ok=True)
+        env = dict(os.environ, TMPDIR=str(tdir))
         try:
-            r = subprocess.run([sys.executable, '-W', 'ignore', str(path)], cwd=str(common.REPO), capture_output=True, text=True, timeout=600)
+            r = subprocess.run([sys.executable, '-W', 'ignore', str(path)], cwd=str(common.REPO), capture_output=True, text=True, timeout=600,
+                               env=env)
             rc, out = r.returncode, (r.stdout + '\n' + r.stderr)
         except subprocess.TimeoutExpired:
             rc, out = -999, 'timed out after 600 s'
